@@ -183,6 +183,20 @@ def type_variant(v):
     return v
 
 
+def aliased_twin(v):
+    """`v` plus two more references to one of its own non-empty nested dicts (as a value and inside a list); None if it has none"""
+    if not isinstance(v, dict):
+        return None
+    for k, x in v.items():
+        if isinstance(x, dict) and x and isinstance(k, str):
+            out = copy.deepcopy(v)
+            shared = out[k]
+            out["zzAgain"] = shared
+            out["zzList"] = [shared, shared]
+            return out
+    return None
+
+
 def same_size_twin(v):
     """a dict that differs from `v` in exactly one leaf, the leaf's spelling having the same length (a digit or a letter
     replaced by its neighbour); None if `v` has no such leaf"""
@@ -277,6 +291,26 @@ def oracle_routes(ctx: Ctx, case: dict, d: dict, fl: str, suffix: str = "") -> N
             r2b = {k: v for k, v in r2b.items() if k != "FoamFile"}
         if not same(r2b, exp):
             ctx.violation("route DictWriter(mode w onto an existing, loosely equal file)+DictReader: read back differs from what was written", case, enc(r2b), enc(exp))
+    # the same dict / list OBJECT referenced at several places of the input (no cycle): every occurrence is written
+    al = aliased_twin(d)
+    if al is not None and not case.get("np"):
+        try:
+            exp_al = expected(copy.deepcopy(al), fl)
+            text_al = formatter(fl).to_string(al)
+            reset_globals()
+            r_al = impl.plain(parser(fl).parse_string(text_al, SDict()))
+            with impl.scratch() as td:
+                reset_globals()
+                DictWriter.write(al, td / ("al" + suffix), mode="w")
+                r_al2 = spec.strip_placeholders(impl.plain(DictReader.read(td / ("al" + suffix))))
+            if fl == "foam":
+                r_al2 = {k: v for k, v in r_al2.items() if k != "FoamFile"}
+            ctx.tag("aliased-subobjects")
+            if not same(r_al, exp_al) or not same(r_al2, exp_al):
+                ctx.violation("a dict in which one dict / list object is referenced at several places is not read back as written", case,
+                              enc(r_al if not same(r_al, exp_al) else r_al2), enc(exp_al))
+        except Exception as e:  # noqa: BLE001
+            ctx.violation("a dict with a shared sub-object: write/read raises", case, repr(e), "round trip")
     # the same path written again with different content of the same size and the same time stamps (coarse file-system
     # clocks, cp -p, restored backups): what is read must be what is in the file now, through read and through load
     tw2 = same_size_twin(d)
